@@ -821,3 +821,74 @@ func init() {
 
 var _ = goidc.GrantClientCredentials
 var _ = http.StatusOK
+
+// replay of a c14 case (replays/C14-*.json as written by ./check): the pre-history, the operation
+// under its plan / crash point, a restart, then the remaining operations
+func init() {
+	replayers["c14"] = func(path string) int {
+		b, err := os.ReadFile(path)
+		if err != nil {
+			fmt.Fprintln(os.Stderr, err)
+			return 2
+		}
+		var rp struct {
+			What string
+			Spec struct {
+				World           WorldSpec
+				FaultedOpIndex  int
+				Plan            []c14Fault
+				CrashBeforeCall int
+				DCR             string
+				TokenOK, Valid  bool
+				Rotation        bool
+			}
+			Ops json.RawMessage
+		}
+		if err := json.Unmarshal(b, &rp); err != nil {
+			fmt.Fprintln(os.Stderr, err)
+			return 2
+		}
+		fmt.Println(rp.What)
+		if rp.Spec.DCR != "" {
+			c := c14DcrRun(rp.Spec.Rotation, rp.Spec.DCR, rp.Spec.TokenOK, rp.Spec.Valid, rp.Spec.Plan, rp.Spec.CrashBeforeCall, "replay")
+			fmt.Printf("DCR %s plan=%s crash=%s\n  clients before %v\n  => %+v\n  log %s\n  clients after %v\n", rp.Spec.DCR, c14Plan(c.Plan), c14Crash(c.Crash), c.Pre, c.Obs, c14Log(c.Log), c.Post)
+			return 0
+		}
+		var ops []Op
+		if err := json.Unmarshal(rp.Ops, &ops); err != nil {
+			fmt.Fprintln(os.Stderr, err)
+			return 2
+		}
+		rp.Spec.World.Flavour = "copy"
+		w, err := NewWorld(rp.Spec.World)
+		if err != nil {
+			fmt.Fprintln(os.Stderr, err)
+			return 2
+		}
+		for i, o := range ops {
+			w.step = i
+			if i == rp.Spec.FaultedOpIndex {
+				obs, crashed := w.c14ExecFaulty(o, rp.Spec.Plan, rp.Spec.CrashBeforeCall)
+				log := w.Stores.Log()
+				w.Stores.BeginRequest(nil, -1)
+				fmt.Printf("%3d %s\n      UNDER plan=%s crash-before-call=%s\n", i, o.coq(), c14Plan(rp.Spec.Plan), c14Crash(rp.Spec.CrashBeforeCall))
+				if crashed {
+					fmt.Printf("      => (request aborted, no answer)\n")
+				} else {
+					fmt.Printf("      => %s   [%d] %s\n", obs.coq(), obs.Status, truncate(obs.Raw, 200))
+				}
+				sess, grants := w.c14Snapshot()
+				fmt.Printf("      storage calls: %s\n      sessions after: %+v\n      grants after: %+v\n      -- restart: fresh provider over the same stores --\n", c14Log(log), sess, grants)
+				p, err := w.newProvider()
+				if err != nil {
+					panic(err)
+				}
+				w.prov = p
+				continue
+			}
+			obs := w.Exec(o)
+			fmt.Printf("%3d %s\n      => %s   [%d] %s\n", i, o.coq(), obs.coq(), obs.Status, truncate(obs.Raw, 200))
+		}
+		return 0
+	}
+}
